@@ -95,6 +95,15 @@ func IdentShape(r *engine.RNG, kind string) *engine.Shape {
 		// type pairs the parser is expected to refuse (counted as a probe)
 		sh.Sig = r.PickInt(3, 4, 5, 6, 9, 10, 12)
 		sh.Crypto = r.PickInt(0, 1, 2, 3, 4)
+	case 6:
+		if r.Chance(1, 4) {
+			// certificate length field at its boundary values
+			if sh.Cert == "null" {
+				sh.Excess = r.PickInt(255, 256, 65533, 65534, 65535)
+			} else {
+				sh.Excess = r.PickInt(251, 252, 65529, 65530, 65531) // 4 + excess = 255, 256, 65533..65535
+			}
+		}
 	}
 	return sh
 }
@@ -226,6 +235,10 @@ var All = []*Adapter{
 	}},
 	{Name: "ReadCertificate", C08: true, Gen: func(r *engine.RNG) *engine.Shape {
 		sh := &engine.Shape{Kind: "cert", Seed: r.Uint64() | 1, U: []uint64{uint64(r.PickInt(0, 0, 1, 2, 3, 4, 5, 5, 6, 77, 255))}, N: r.PickInt(0, 0, 1, 3, 4, 5, 40, 72, 300)}
+		if r.Chance(1, 12) {
+			// boundary values of the 16-bit length field
+			sh.N = r.PickInt(255, 256, 257, 32767, 32768, 65532, 65533, 65534, 65535)
+		}
 		return sh
 	}, Arg: noArg, Parse: func(b []byte, _ int) Result {
 		c, rem, err := certificate.ReadCertificate(b)
@@ -341,7 +354,7 @@ var All = []*Adapter{
 		return Result{Val: &ls, Rem: rem, HasRem: true, OK: err == nil}
 	}},
 	{Name: "ReadEncryptedLeaseSet", C08: true, Gen: func(r *engine.RNG) *engine.Shape {
-		sh := &engine.Shape{Kind: "els", Seed: r.Uint64() | 1, IdentSeed: 1 + uint64(r.Intn(6)), Sig: r.PickInt(7, 7, 11, 11, 0, 1, 2, 3, 4, 8), Size: r.PickInt(61, 61, 62, 100, 400, 60, 1)}
+		sh := &engine.Shape{Kind: "els", Seed: r.Uint64() | 1, IdentSeed: 1 + uint64(r.Intn(6)), Sig: r.PickInt(7, 7, 11, 11, 0, 1, 2, 3, 4, 8), Size: r.PickInt(61, 61, 62, 100, 400, 60, 1, 255, 256, 65535)}
 		sh.U = []uint64{r.Uint64() & 0xFFFFFFFF, 1 + r.Uint64()&0xFFFE, uint64(r.Intn(2)) << 1}
 		if r.Chance(1, 3) {
 			sh.Offline = offline(r, allTransients)
